@@ -7,6 +7,7 @@ package c03
 import (
 	"fmt"
 	"os"
+	"runtime"
 	"sort"
 	"sync"
 	"sync/atomic"
@@ -51,10 +52,13 @@ type model struct {
 	Belief   map[int]bool   `json:"believed_healthy"`
 	Mode     map[int]string `json:"stub_healthz_mode"`
 	Subsets  [][]int        `json:"policy_subsets"` // per policy; empty = no subset; may name stubs that are not servers
+	// Bad, when set, is one more entry of the object's server list: an endpoint string for which no client can be built
+	// (the controller's sync of such an object fails half-way and asks for a requeue). It is never pickable.
+	Bad string `json:"unbuildable_server,omitempty"`
 }
 
 func (m *model) clone() *model {
-	c := &model{Disabled: map[int]bool{}, Belief: map[int]bool{}, Mode: map[int]string{}}
+	c := &model{Disabled: map[int]bool{}, Belief: map[int]bool{}, Mode: map[int]string{}, Bad: m.Bad}
 	c.Servers = append(c.Servers, m.Servers...)
 	for k, v := range m.Disabled {
 		if v {
@@ -138,6 +142,8 @@ type disInt struct {
 	class string // idle-at-disable | hung-probe-at-disable
 	ep    *clusters.EndpointInfo
 	pokes []int64
+	// removed: the interval is "not in the latest object's server list" instead of "disabled"
+	removed bool
 }
 
 type hist struct {
@@ -192,6 +198,9 @@ func (h *hist) object(m *model) *proxyv1alpha1.UpstreamCluster {
 		if m.Disabled[s] {
 			dis[h.stubs[s].URL] = true
 		}
+	}
+	if m.Bad != "" {
+		servers = append(servers, m.Bad)
 	}
 	var ps []proxyv1alpha1.DispatchPolicy
 	for p := range m.Subsets {
@@ -288,11 +297,18 @@ func (h *hist) stableBurst(g *vkit.Rand, n, step int) {
 // `to` (taken before the enabling/removing sync is called, or at the end of the history).
 func (h *hist) closeInterval(di *disInt, to int64) {
 	delete(h.open, di.stub)
-	h.r.Count("disabled_intervals_judged", 1)
+	if di.removed {
+		h.r.Count("removed_intervals_judged", 1)
+	} else {
+		h.r.Count("disabled_intervals_judged", 1)
+	}
 	// scenario class: a probe of this stub may have been hanging (stub in "hang" mode within the probe timeout before
 	// the sync) when the endpoint was disabled
 	if h.modeActive(di.stub, bed.HealthHang, di.from-int64(probeTimeout+settle), di.from) {
 		di.class = "hung-probe-at-disable"
+		if di.removed {
+			di.class = "hung-probe-at-removal"
+		}
 	}
 	lo := di.from + int64(settle)
 	// Widening: ONE health-check call is not one /healthz request. client-go retries a GET that ended in a connection
@@ -318,7 +334,12 @@ func (h *hist) closeInterval(di *disInt, to int64) {
 	for _, t := range di.pokes {
 		pokes = append(pokes, float64(t-di.from)/1e6)
 	}
-	if len(late) > 0 {
+	if len(late) > 0 && di.removed {
+		h.r.Violation("C03/removed/probe-while-not-in-server-list/"+di.class,
+			fmt.Sprintf("server is not in the latest object's server list (sync returned), yet its stub logged %d /healthz probe(s) %v ms after that sync returned and before it was listed again (class %s; probes within the first %v after the sync are not counted)",
+				len(late), late, di.class, settle),
+			map[string]interface{}{"history": h.id, "stub": di.stub, "class": di.class, "probe_ms_after_sync": late, "all_probes_ms_relative_to_sync": all, "trigger_calls_ms_after_sync": pokes, "interval_ms": float64(to-di.from) / 1e6, "model": h.m.clone()})
+	} else if len(late) > 0 {
 		h.r.Violation("C03/disabled/probe-while-disabled/"+di.class,
 			fmt.Sprintf("endpoint was marked disabled (sync returned), yet its stub logged %d /healthz probe(s) %v ms after the disabling sync returned and before it was enabled again (class %s; probes within the first %v after the sync are not counted)",
 				len(late), late, di.class, settle),
@@ -372,7 +393,7 @@ func (h *hist) genChange(g *vkit.Rand, allowHang bool, tickerWait bool) *change 
 	m := h.m
 	for try := 0; try < 20; try++ {
 		after := m.clone()
-		switch g.Intn(11) {
+		switch g.Intn(12) {
 		case 0, 1, 2: // health outcome of an enabled server changes
 			var cand []int
 			for _, s := range m.Servers {
@@ -486,6 +507,9 @@ func (h *hist) genChange(g *vkit.Rand, allowHang bool, tickerWait bool) *change 
 			// a new endpoint starts as unhealthy and is probed at once unless it is created disabled
 			after.Belief[e] = !dis && healthyMode(nm)
 			return &change{Kind: "server-add", Target: e, Detail: fmt.Sprintf("disabled=%v mode=%s", dis, modeName[nm]), after: after, run: func() bool {
+				if di := h.open[e]; di != nil {
+					h.closeInterval(di, bed.Now()) // it was removed earlier: judge the time it was not listed
+				}
 				h.setMode(e, nm) // not a server yet: invisible to the gateway
 				if !h.apply(after) {
 					return false
@@ -515,7 +539,53 @@ func (h *hist) genChange(g *vkit.Rand, allowHang bool, tickerWait bool) *change 
 				if di := h.open[e]; di != nil {
 					h.closeInterval(di, bed.Now())
 				}
-				return h.apply(after)
+				ep := h.endpoint(e)
+				if !h.apply(after) {
+					return false
+				}
+				h.open[e] = &disInt{stub: e, from: bed.Now(), class: "removed", ep: ep, removed: true}
+				return true
+			}}
+		case 10: // one update removes a server AND adds one for which no client can be built: the sync fails half-way
+			if len(m.Servers) < 2 || m.Bad != "" {
+				continue
+			}
+			i := g.Intn(len(m.Servers))
+			e := m.Servers[i]
+			if h.modes[e] == bed.HealthHang {
+				continue
+			}
+			after.Servers = append(after.Servers[:i:i], m.Servers[i+1:]...)
+			delete(after.Disabled, e)
+			delete(after.Belief, e)
+			// Both pass the API's "starts with http:// or https://" test; url.Parse rejects them when the client is built.
+			after.Bad = []string{"http://[::1", "http://a b", "https://[fe80::1%en0", "http://bad host:6443"}[g.Intn(4)]
+			return &change{Kind: "server-replace-failing-add", Target: e, Detail: after.Bad, after: after, run: func() bool {
+				if di := h.open[e]; di != nil {
+					h.closeInterval(di, bed.Now())
+				}
+				ep := h.endpoint(e)
+				// The object is the lister's latest version, so its server list is the current one even though the sync
+				// fails and asks for a requeue; the queue re-delivers it (at most 3 times) and gives up.
+				sr := h.gw.Apply(h.object(after))
+				requeues := 0
+				for sr.Panic == nil && sr.Requeue && requeues < 3 {
+					requeues++
+					item, ok, _ := h.gw.Indexer.GetByKey(h.host)
+					if !ok {
+						break
+					}
+					sr = h.gw.Deliver(item.(*proxyv1alpha1.UpstreamCluster))
+				}
+				if sr.Panic != nil {
+					h.fail(fmt.Sprintf("controller panicked on an object with an unbuildable server %q: %v", after.Bad, sr.Panic))
+					return false
+				}
+				h.r.Count("partially_failing_updates", 1)
+				h.r.Count("partially_failing_update_redeliveries", requeues)
+				h.open[e] = &disInt{stub: e, from: bed.Now(), class: "removed-with-failing-add", ep: ep, removed: true}
+				time.Sleep(settle + 20*time.Millisecond)
+				return true
 			}}
 		case 9: // subset of a policy changes
 			p := g.Intn(h.np)
@@ -589,6 +659,13 @@ func runHistory(r *vkit.R, id int, g *vkit.Rand, steps int, allowHang, tickerWai
 	var changes []map[string]interface{}
 	for s := 1; s <= steps && !h.bad; s++ {
 		ch := h.genChange(g, allowHang, tickerWait && s%5 == 0)
+		if h.m.Bad != "" {
+			// the object still lists the unbuildable server: every sync of it fails half-way, so the next change is the
+			// operator dropping that entry (nothing else is changed while the object cannot be applied completely)
+			after := h.m.clone()
+			after.Bad = ""
+			ch = &change{Kind: "drop-unbuildable-server", Detail: h.m.Bad, after: after, run: func() bool { return h.apply(after) }}
+		}
 		before := h.m.clone()
 		after := ch.after
 		r.Count("steps", 1)
@@ -816,6 +893,105 @@ func hungProbeScenario(r *vkit.R, id int, g *vkit.Rand) {
 	h.judge([]string{"stub1 healthz hangs", "disable stub1 while the probe is in flight", "TriggerHealthCheck, wait 6s", "enable stub1 (healthy)"})
 }
 
+// disableRacingProbes: probe outcomes are being recorded WHILE the disabling spec update is applied. Several goroutines
+// call TriggerHealthCheck on the endpoint without pause (healthy stub, so every probe records "healthy"), the main
+// goroutine alternates Apply(enabled) / Apply(disabled) for a fixed number of iterations. After EVERY disabling sync
+// returned: the endpoint must not report ready, a request sent now must not reach it (503 when it is the only server),
+// and - on some iterations, after the settle time - no new probe may reach it although the triggers continue.
+func disableRacingProbes(r *vkit.R, id int, g *vkit.Rand, iters int) {
+	k := g.Range(1, 2)
+	h := newHist(r, id, k)
+	defer h.close()
+	h.np = 1
+	m := &model{Disabled: map[int]bool{}, Belief: map[int]bool{}, Mode: map[int]string{}, Subsets: [][]int{nil}}
+	for i := 0; i < k; i++ {
+		h.setMode(i, bed.HealthOK)
+		m.Servers = append(m.Servers, i)
+		m.Belief[i] = true
+		m.Mode[i] = "ok"
+	}
+	if k == 2 && g.Bool() {
+		m.Subsets[0] = []int{1, 0}
+	}
+	h.m = m
+	if !h.apply(m) {
+		return
+	}
+	for i := 0; i < k; i++ {
+		if !h.waitReady(i, true) {
+			return
+		}
+	}
+	ep := h.endpoint(0)
+	dis := m.clone()
+	dis.Disabled[0] = true
+	stop := make(chan struct{})
+	var hw sync.WaitGroup
+	nh := g.Range(2, 4)
+	for i := 0; i < nh; i++ {
+		hw.Add(1)
+		go func() {
+			defer hw.Done()
+			for n := 0; ; n++ {
+				select {
+				case <-stop:
+					return
+				default:
+				}
+				ep.TriggerHealthCheck()
+				if n%8 == 0 {
+					time.Sleep(5 * time.Microsecond)
+				} else {
+					runtime.Gosched()
+				}
+			}
+		}()
+	}
+	defer func() { close(stop); hw.Wait() }()
+	settleEvery := iters / 3
+	for it := 0; it < iters && !h.bad; it++ {
+		if !h.apply(m) {
+			return
+		}
+		h.m = m
+		// let the restarted checker run for a seeded moment so that a probe result lands around the disabling sync
+		switch g.Intn(3) {
+		case 0:
+		case 1:
+			for t := bed.Now() + int64(g.Range(0, 600))*1000; bed.Now() < t; {
+				runtime.Gosched()
+			}
+		default:
+			n0 := h.stubs[0].ProbeCount()
+			vkit.WaitFor(time.Second, func() bool { return h.stubs[0].ProbeCount() > n0 })
+		}
+		if !h.apply(dis) {
+			return
+		}
+		from := bed.Now()
+		h.m = dis
+		r.Count("racing_disable_iterations", 1)
+		if ep.IsReady() {
+			r.Violation("C03/disable-racing-probe-result/still-ready-after-disable",
+				fmt.Sprintf("iteration %d: the disabling sync returned while health-probe results were being recorded, and the endpoint still reports ready", it),
+				map[string]interface{}{"history": h.id, "iteration": it, "servers": k, "trigger_goroutines": nh, "model": dis})
+		}
+		h.send(g, &reqRec{Policy: 0, Phase: "disable-racing-probe-result", Step: it, After: dis, Allowed: dis.pickable(0, k)})
+		if it%settleEvery == settleEvery-1 || it == iters-1 {
+			di := &disInt{stub: 0, from: from, class: "racing-probe-result", ep: ep}
+			h.open[0] = di
+			time.Sleep(settle + 60*time.Millisecond)
+			h.send(g, &reqRec{Policy: 0, Phase: "disable-racing-probe-result", Step: it, After: dis, Allowed: dis.pickable(0, k)})
+			h.closeInterval(di, bed.Now())
+		}
+	}
+	if h.bad {
+		return
+	}
+	r.Count("racing_disable_scenarios", 1)
+	h.judge([]string{fmt.Sprintf("%d goroutines call TriggerHealthCheck on stub0's endpoint continuously", nh), fmt.Sprintf("%d x (Apply enabled, Apply disabled, check)", iters)})
+}
+
 func TestCheck(t *testing.T) {
 	vkit.Run(t, "C03", "exploration", func(r *vkit.R) {
 		r.Rule("Seeded histories on a real gateway (controller VerifSync + GatewayHealthCheck + proxy handler chain) with 2..5 stub upstreams and 1..3 policies " +
@@ -825,7 +1001,10 @@ func TestCheck(t *testing.T) {
 			"Oracle by request id over the stub logs: stable -> the receiving stub is a server, in the subset, enabled and believed healthy; racing -> pickable before or after the change; " +
 			"at most one stub, once; empty pickable set -> 503 and nothing forwarded; disabled endpoints: no /healthz probe between (disabling sync returned + 500 ms) and the enabling sync " +
 			"although TriggerHealthCheck is called on the retained EndpointInfo (some intervals span > 5.5 s to cover the ticker and the probe timeout; extra scenarios disable an endpoint " +
-			"while its probe hangs). Non-trivial = some stub of the history may not be picked; distinct = hash(state, previous state when racing, policy, phase).")
+			"while its probe hangs); the same probe clause for servers that are no longer in the latest object's list. Partially failing updates: one object removes a server and adds an " +
+			"endpoint string for which no client can be built (sync fails half-way, requeue re-delivered 3 times): the pickable set is the latest object's server list, the next step drops " +
+			"the bad entry. Racing scenarios: goroutines call TriggerHealthCheck continuously while the spec alternates enabled/disabled for a fixed number of iterations; after every " +
+			"disabling sync the endpoint must not be ready / receive a request / (after the settle) a probe. Non-trivial = some stub of the history may not be picked; distinct = hash(state, previous state when racing, policy, phase).")
 		r.Assume("the gateway's belief about an endpoint's health is the result of its latest completed probe; the harness waits for IsReady() after every change that flips it, and never changes the /healthz mode of a disabled server")
 		r.Assume("a probe logged by a stub within 500 ms after the disabling sync returned is taken as already in flight when the sync returned")
 
@@ -835,9 +1014,15 @@ func TestCheck(t *testing.T) {
 		n := tierN(r, 40, 600)
 		steps := tierN(r, 10, 14)
 		hung := tierN(r, 12, 40)
+		racers := tierN(r, 6, 12)
+		racerIters := tierN(r, 400, 1500)
 		vkit.Sched.Enable(uint64(r.Seed), 0.02, 0.01, 0.0005)
-		r.Parallel(n+hung, 16, func(i int, g *vkit.Rand) {
+		r.Parallel(n+hung+racers, 16, func(i int, g *vkit.Rand) {
 			if p := vkit.Safely(func() {
+				if i >= n+hung {
+					disableRacingProbes(r, i, g, racerIters)
+					return
+				}
 				if i%((n+hung)/hung) == 0 && i/((n+hung)/hung) < hung {
 					hungProbeScenario(r, i, g)
 					return
@@ -863,5 +1048,8 @@ func TestCheck(t *testing.T) {
 		r.Require(r.Counter("disabled_intervals_judged") >= int64(tierN(r, 40, 500)), "too few disabled intervals judged")
 		r.Require(r.Counter("disabled_triggers") >= int64(tierN(r, 60, 900)), "too few TriggerHealthCheck calls on disabled endpoints")
 		r.Require(r.Counter("hung_probe_scenarios") >= int64(hung*8/10), "too few hung-probe scenarios completed")
+		r.Require(r.Counter("racing_disable_iterations") >= int64(racers*racerIters*8/10), "too few disable-while-recording-probe-results iterations")
+		r.Require(r.Counter("partially_failing_updates") >= int64(tierN(r, 10, 150)), "too few partially failing updates (server removed + unbuildable server added)")
+		r.Require(r.Counter("removed_intervals_judged") >= int64(tierN(r, 20, 300)), "too few not-in-server-list intervals judged for probes")
 	})
 }
